@@ -97,6 +97,22 @@ func floatEdge(c tcase) bool {
 	return fv == 9223372036854775808.0
 }
 
+// lossyEdge: the float64 value is 2^63 but the exact (rounded) value of the text is still
+// within BIGINT ('9223372036854775806.', '9223372036854775807.4'): on the unchanged tree it is
+// stored as -2^63 (kfBigintWrap); once the 2^63 boundary test is repaired it is rejected or
+// clamped to the maximum although it is representable, which is the lossy float parse
+// (kfTextViaFloat). Only both repairs together make it right.
+func lossyEdge(c tcase) bool {
+	if !floatEdge(c) {
+		return false
+	}
+	r, ok := new(big.Rat).SetString(strings.TrimSuffix(c.numText, "."))
+	if !ok {
+		return false
+	}
+	return roundHalfAway(r, 0).Num().Cmp(new(big.Int).Sub(pow2(63), bi(1))) <= 0
+}
+
 // floatLossy: the float64 value differs from the exact value (more than 53 significant bits).
 func floatLossy(c tcase) bool {
 	fv, ok := floatPath(c)
@@ -160,6 +176,8 @@ func region(c tcase, route string) string {
 		return kfBlankZero
 	case isUnsignedInt(c) && c.rep == repNot && c.ival != nil && c.ival.Sign() < 0 && route == "ignore":
 		return kfUnsignedWrap
+	case lossyEdge(c) && (c.ddl == "BIGINT" || route == "ignore"):
+		return firstListed(kfBigintWrap, kfTextViaFloat)
 	case floatEdge(c) && (c.ddl == "BIGINT" || route == "ignore"):
 		return kfBigintWrap
 	case floatLossy(c) && route != "api":
@@ -246,7 +264,7 @@ func signature(c tcase, o outcome, why string) string {
 	case floatEdge(c) && c.ddl == "BIGINT" && o.stored && !o.failed && o.norm == "n:-9223372036854775808":
 		return kfBigintWrap
 
-	case floatLossy(c) && !floatEdge(c) && o.route != "api" && o.stored && !o.failed && o.norm == viaFloatStored(c):
+	case floatLossy(c) && (!floatEdge(c) || lossyEdge(c)) && o.route != "api" && o.stored && !o.failed && o.norm == viaFloatStored(c):
 		return kfTextViaFloat
 
 	case floatEdge(c) && c.ddl != "BIGINT" && o.route == "ignore" && o.stored && !o.failed && o.warnings > 0:
